@@ -197,7 +197,23 @@ package ipk
 //@     invariant [C11 C12] accumulator-fresh: result == nil || fresh(result)
 //@     invariant [C02] no-blank-items-so-far: forall(0, len(result), func(i int) bool { return result[i] != "" && result[i] == strings.TrimSpace(result[i]) })
 //
-//@ pure func renderControl$2(strs string) (result string)
+//@ spec func descLine(t string, i int) string {
+//@     l := strings.TrimSpace(ufStr("lineAt", t, i))
+//@     if i == 0 { return l }
+//@     if l == "" { return "\n ." }
+//@     return "\n " + l
+//@ }
+//
+//@ spec func descLines(t string, n int) string {
+//@     return foldStr(n, func(i int) string { return descLine(t, i) })
+//@ }
+//
+//@ import "bufio"
+//
+//@ func renderControl$2(strs string) (result string)
+//@   ensures [C02] synopsis-first-then-one-continuation-line-per-line: result == descLines(strings.TrimSpace(strs), ufInt("lineCount", strings.TrimSpace(strs)))
+//@   loop 0 (b strings.Builder, s *bufio.Scanner)
+//@     invariant [C02] lines-so-far: s != nil && ghostStr(s, "scanText") == strings.TrimSpace(strs) && 0 <= ghostInt(s, "scanIdx") && ghostInt(s, "scanIdx") <= ufInt("lineCount", strings.TrimSpace(strs)) && (ufInt("lineCount", strings.TrimSpace(strs)) == 0 || ghostInt(s, "scanIdx") >= 1) && b.String() == descLines(strings.TrimSpace(strs), ghostInt(s, "scanIdx"))
 //
 //@ import "time"
 //@ import "os"
